@@ -171,7 +171,7 @@ DEFAULT_FEATURES = dict(
     derived=True, cte=True, order=True, limit=True, offset_no_limit=False, order_expr=True,
     cast=True, concat=True, group_expr=True, where_false=True, case_no_else=False,
     corr_in_sub=False, neg=True, null_lit=True, sum_=True, derived_limit=False, agg_in_list=True, in_sub_expr=True,
-    sorted_join=True, join_mixed_key=True, order_hidden_pk=True, join_false_conjunct=True, bare_scan=True,
+    sorted_join=True, join_mixed_key=True, order_hidden_pk=True, join_false_conjunct=True, bare_scan=True, join_mixed_num=True,
 )
 
 
@@ -473,6 +473,17 @@ class QueryGen:
                         if not self.f["mixed_int"]:
                             rr = l if False else rr
                         self.tag("join_mixed_int")
+                    if self.f.get("join_mixed_num") and self.rng2.random() < 0.2:
+                        # an equi-join key pair of different numeric types (INT = DOUBLE, DECIMAL = INT ...): `=` compares them
+                        # numerically, a hash table compares key values
+                        ln = self.cols_of(scope, lambda t: t.startswith(("DOUBLE", "DECIMAL")))
+                        rn = self.cols_of(s1, lambda t: t.startswith(("DOUBLE", "DECIMAL")))
+                        if ln or rn:
+                            self.tag("join_mixed_num")
+                            if ln and (not rn or self.rng2.random() < 0.5):
+                                l = self.rng2.choice(ln)
+                            else:
+                                rr = self.rng2.choice(rn)
                     conds.append(f"{l[0]} = {rr[0]}")
                     if r.random() < 0.15 and len(li) > 1 and len(ri) > 1:
                         l2, r2 = r.choice(li), r.choice(ri)
